@@ -248,7 +248,9 @@ def c01(tier):
 # ---- C12: every writing command on a clean (flushed, unmodified) record, then eviction -----------------
 WRITERS = [
     ("str", ["SET", "k", "v"]), ("str", ["SET", "k", "v", "XX"]), ("str", ["SET", "k", "v", "KEEPTTL"]), ("str", ["GETSET", "k", "v"]),
-    ("str", ["APPEND", "k", "x"]), ("str", ["SETRANGE", "k", "1", "z"]), ("str", ["INCR", "k"]), ("str", ["DECR", "k"]), ("str", ["INCRBY", "k", "5"]),
+    ("str", ["APPEND", "k", "x"]), ("str", ["SETRANGE", "k", "1", "z"]),
+    # writers that look like no-ops but still change the value (zero padding past the end)
+    ("str", ["SETBIT", "k", "100", "0"]), ("str", ["SETRANGE", "k", "9", "z"]), ("str", ["INCR", "k"]), ("str", ["DECR", "k"]), ("str", ["INCRBY", "k", "5"]),
     ("str", ["DECRBY", "k", "5"]), ("str", ["INCRBYFLOAT", "k", "2"]), ("str", ["SETBIT", "k", "1", "1"]), ("str", ["MSET", "k", "v"]),
     ("str", ["RENAME", "o", "k"]), ("str", ["RENAME", "k", "k2"]), ("str", ["RENAMENX", "k", "k3"]),
     ("list", ["LPUSH", "k", "x"]), ("list", ["RPUSH", "k", "x"]), ("list", ["LPUSHX", "k", "x"]), ("list", ["RPUSHX", "k", "x"]), ("list", ["LPOP", "k"]),
